@@ -74,7 +74,7 @@ func VerifC02TotalOps() {
 	depth := vnd.Param("C02.OpsDepth", 1, 1)
 	for i := 0; i < depth; i++ {
 		op := vnd.Pick(opCount)
-		arg := vnd.Str(vnd.Len(vnd.Param("C02.KOps", 1, 1)))
+		arg := vnd.Str(vnd.Len(vnd.Param("C02.KOps", 1, 2)))
 		u = applyOp(u, op, arg)
 		if u == nil {
 			vnd.Fail("operation lost the URL")
